@@ -360,13 +360,13 @@ impl<'xml> DeserializeContent<'xml> for String {
 
 impl<'xml> DeserializeContent<'xml> for i32 {
     fn deserialize_content(d: &mut Deserializer<'xml>) -> DeResult<Self> {
-        d.text(|t| atoi::atoi::<Self>(t.as_ref()).ok_or(DeError::InvalidContent))
+        d.text(|t| crate::utils::parser::parse_int::<Self>(t.as_ref().trim_ascii()).ok_or(DeError::InvalidContent))
     }
 }
 
 impl<'xml> DeserializeContent<'xml> for i64 {
     fn deserialize_content(d: &mut Deserializer<'xml>) -> DeResult<Self> {
-        d.text(|t| atoi::atoi::<Self>(t.as_ref()).ok_or(DeError::InvalidContent))
+        d.text(|t| crate::utils::parser::parse_int::<Self>(t.as_ref().trim_ascii()).ok_or(DeError::InvalidContent))
     }
 }
 
